@@ -737,9 +737,9 @@ Proof. destruct f; vm_compute; reflexivity. Qed.
 Lemma dict_ok_raw_ok f raw : dict_ok (width f) raw = true -> raw_ok f raw = true.
 Proof. unfold dict_ok, raw_ok. intros H. apply andb_true_iff in H as [_ H]. exact H. Qed.
 
-Lemma pstep_refines fixed s g o : Inv Wpub s g -> pop_ok o = true ->
-  (fixed = true \/ empty_nowrap o = false) ->
-  exists s', pstep fixed s o = Val (s', snd (spec_pstep g o)) /\ Inv Wpub s' (fst (spec_pstep g o)).
+Lemma pstep_refines legacy s g o : Inv Wpub s g -> pop_ok o = true ->
+  (legacy = false \/ empty_nowrap o = false) ->
+  exists s', pstep legacy s o = Val (s', snd (spec_pstep g o)) /\ Inv Wpub s' (fst (spec_pstep g o)).
 Proof.
   intros HI Hok Hcls. destruct o as [f per nowrap raw|f]; cbn [pstep spec_pstep pop_ok empty_nowrap] in *.
   - rewrite (dict_ok_raw_ok f raw Hok). cbn [negb].
@@ -750,8 +750,8 @@ Proof.
     { intros _. destruct (run_refines Wpub s g (fname f) raw HI) as [s' [E [HI' _]]].
       - rewrite Wpub_fname. exact Hok.
       - rewrite E. cbn [obind fst snd]. exists s'. split; [reflexivity | exact HI']. }
-    destruct (negb fixed && is_empty raw) eqn:Ee.
-    + apply andb_true_iff in Ee as [Ef Er]. apply negb_true_iff in Ef. subst fixed.
+    destruct (legacy && is_empty raw) eqn:Ee.
+    + apply andb_true_iff in Ee as [Ef Er]. subst legacy.
       destruct Hcls as [Hc|Hc]; [discriminate|]. rewrite Er, andb_true_r in Hc. subst nowrap.
       cbn [fst snd]. exists s. split; [reflexivity | exact HI].
     + destruct nowrap; cbn [fst snd].
@@ -760,45 +760,93 @@ Proof.
   - eexists. split; [reflexivity|]. cbn [fst]. apply Inv_clear. exact HI.
 Qed.
 
-Lemma ptrace_refines fixed : forall ops s g, Inv Wpub s g -> forallb pop_ok ops = true ->
-  (fixed = true \/ no_empty_nowrap ops = true) ->
-  ptrace fixed s ops = map Val (spec_ptrace g ops).
+Lemma ptrace_refines legacy : forall ops s g, Inv Wpub s g -> forallb pop_ok ops = true ->
+  (legacy = false \/ no_empty_nowrap ops = true) ->
+  ptrace legacy s ops = map Val (spec_ptrace g ops).
 Proof.
   induction ops as [|o ops IH]; intros s g HI Hok Hcls; cbn [ptrace spec_ptrace map]; [reflexivity|].
   cbn [forallb] in Hok. apply andb_true_iff in Hok as [Ho Hok].
-  assert (Hc1 : fixed = true \/ empty_nowrap o = false).
+  assert (Hc1 : legacy = false \/ empty_nowrap o = false).
   { destruct Hcls as [Hc|Hc]; [left; exact Hc|]. right. unfold no_empty_nowrap in Hc. cbn [forallb] in Hc.
     apply andb_true_iff in Hc as [Hc _]. apply negb_true_iff in Hc. exact Hc. }
-  assert (Hc2 : fixed = true \/ no_empty_nowrap ops = true).
+  assert (Hc2 : legacy = false \/ no_empty_nowrap ops = true).
   { destruct Hcls as [Hc|Hc]; [left; exact Hc|]. right. unfold no_empty_nowrap in *. cbn [forallb] in Hc.
     apply andb_true_iff in Hc as [_ Hc]. exact Hc. }
-  destruct (pstep_refines fixed s g o HI Ho Hc1) as [s' [E HI']]. rewrite E. f_equal. apply IH; assumption.
+  destruct (pstep_refines legacy s g o HI Ho Hc1) as [s' [E HI']]. rewrite E. f_equal. apply IH; assumption.
 Qed.
 
-(* the code as it is: every sequence in which no nowrap=True call finds the device list empty *)
-Theorem public_exact ops : forallb pop_ok ops = true -> no_empty_nowrap ops = true ->
-  ptrace false [] ops = map Val (spec_ptrace [] ops).
-Proof. intros Hok Hc. apply ptrace_refines; [apply Inv_init | exact Hok | right; exact Hc]. Qed.
+Lemma pexec_refines : forall ops s g, Inv Wpub s g -> forallb pop_ok ops = true ->
+  exists s', pexec false s ops = Val s' /\ Inv Wpub s' (spec_pexec g ops).
+Proof.
+  induction ops as [|o ops IH]; intros s g HI Hok; cbn [pexec spec_pexec].
+  - exists s. split; [reflexivity | exact HI].
+  - cbn [forallb] in Hok. apply andb_true_iff in Hok as [Ho Hok].
+    destruct (pstep_refines false s g o HI Ho (or_introl eq_refl)) as [s' [E HI']]. rewrite E. cbn [obind fst].
+    apply IH; assumption.
+Qed.
 
-(* with the empty test moved after the wrap step: every sequence *)
-Theorem public_exact_repaired ops : forallb pop_ok ops = true ->
-  ptrace true [] ops = map Val (spec_ptrace [] ops).
+(* the code as it is now (after e278b23): every sequence *)
+Theorem public_exact ops : forallb pop_ok ops = true ->
+  ptrace false [] ops = map Val (spec_ptrace [] ops).
 Proof. intros Hok. apply ptrace_refines; [apply Inv_init | exact Hok | left; reflexivity]. Qed.
+
+(* the code before e278b23: only the sequences in which no nowrap=True call finds the listing empty *)
+Theorem public_before_repair_partial ops : forallb pop_ok ops = true -> no_empty_nowrap ops = true ->
+  ptrace true [] ops = map Val (spec_ptrace [] ops).
+Proof. intros Hok Hc. apply ptrace_refines; [apply Inv_init | exact Hok | right; exact Hc]. Qed.
 
 Definition refute_ops : list pop :=
   [ PCall Net true true [(bs "eth0", [0; 100; 0; 0; 0; 0; 0; 0])];
     PCall Net true true [];
     PCall Net true true [(bs "eth0", [0; 5; 0; 0; 0; 0; 0; 0])] ].
 
-Theorem public_refuted :
+Theorem public_before_repair_refuted :
   exists ops, forallb pop_ok ops = true /\
-    nth 2 (ptrace false [] ops) OutOfModel = Val (PDict [(bs "eth0", [0; 105; 0; 0; 0; 0; 0; 0])]) /\
-    nth 2 (spec_ptrace [] ops) PNone = PDict [(bs "eth0", [0; 5; 0; 0; 0; 0; 0; 0])].
+    nth 2 (ptrace true [] ops) OutOfModel = Val (PDict [(bs "eth0", [0; 105; 0; 0; 0; 0; 0; 0])]) /\
+    nth 2 (spec_ptrace [] ops) PNone = PDict [(bs "eth0", [0; 5; 0; 0; 0; 0; 0; 0])] /\
+    nth 2 (ptrace false [] ops) OutOfModel = Val (PDict [(bs "eth0", [0; 5; 0; 0; 0; 0; 0; 0])]).
 Proof. exists refute_ops. vm_compute. repeat split; reflexivity. Qed.
 
-Theorem nowrap_false_raw fixed s f per raw : raw_ok f raw = true ->
-  pstep fixed s (PCall f per false raw) = Val (s, present f per raw).
-Proof. intros H. cbn [pstep]. rewrite H. cbn [negb]. destruct (negb fixed && is_empty raw); reflexivity. Qed.
+(* one public answer in terms of the ghost history *)
+Lemma public_answer_after ops s f per raw s' a :
+  forallb pop_ok ops = true -> dict_ok (width f) raw = true ->
+  pexec false [] ops = Val s -> pstep false s (PCall f per true raw) = Val (s', a) ->
+  a = present f per (spec_dict (gget (spec_pexec [] ops) (fname f)) raw).
+Proof.
+  intros Hok Hd E R. destruct (pexec_refines ops [] [] (Inv_init Wpub) Hok) as [s0 [E0 HI]].
+  rewrite E in E0. inversion E0; subst s0.
+  destruct (pstep_refines false s _ (PCall f per true raw) HI Hd (or_introl eq_refl)) as [s1 [R1 _]].
+  rewrite R in R1. inversion R1. reflexivity.
+Qed.
+
+(* a device absent from the previous nowrap=True listing of this function -- in
+   particular when that listing was empty (every device gone) -- starts afresh *)
+Theorem public_reappear_fresh ops s f per raw s' a dprev h k t :
+  forallb pop_ok ops = true -> dict_ok (width f) raw = true ->
+  pexec false [] ops = Val s -> pstep false s (PCall f per true raw) = Val (s', a) ->
+  gget (spec_pexec [] ops) (fname f) = dprev :: h -> lookup k dprev = None ->
+  lookup k raw = Some t ->
+  exists o, a = present f per o /\ lookup k o = Some t.
+Proof.
+  intros Hok Hd E R Hg Hp Ed. exists (spec_dict (dprev :: h) raw). split.
+  - rewrite <- Hg. apply (public_answer_after ops s f per raw s' a Hok Hd E R).
+  - rewrite lookup_spec_dict, Ed. f_equal. apply spec_tuple_fresh. intros i. cbn [run_values]. rewrite Hp. reflexivity.
+Qed.
+
+Theorem public_all_gone_fresh ops s f per raw s' a h :
+  forallb pop_ok ops = true -> dict_ok (width f) raw = true ->
+  pexec false [] ops = Val s -> pstep false s (PCall f per true raw) = Val (s', a) ->
+  gget (spec_pexec [] ops) (fname f) = [] :: h ->
+  a = present f per raw.
+Proof.
+  intros Hok Hd E R Hg. rewrite (public_answer_after ops s f per raw s' a Hok Hd E R), Hg. f_equal.
+  unfold spec_dict. rewrite <- (map_id raw) at 2. apply map_ext. intros [k t]. cbn [fst snd]. f_equal.
+  apply spec_tuple_fresh. intros i. reflexivity.
+Qed.
+
+Theorem nowrap_false_raw legacy s f per raw : raw_ok f raw = true ->
+  pstep legacy s (PCall f per false raw) = Val (s, present f per raw).
+Proof. intros H. cbn [pstep]. rewrite H. cbn [negb]. destruct (legacy && is_empty raw); reflexivity. Qed.
 
 (* the hypotheses are satisfiable by non-trivial inputs *)
 Definition example_ops : list wop :=
@@ -814,3 +862,8 @@ Example example_ops_ok : forallb (wop_ok example_W) example_ops = true.
 Proof. vm_compute. reflexivity. Qed.
 Example example_pub_ok : forallb pop_ok refute_ops = true /\ no_empty_nowrap (firstn 1 refute_ops ++ skipn 2 refute_ops) = true.
 Proof. vm_compute. split; reflexivity. Qed.
+(* the hypotheses of public_all_gone_fresh / public_reappear_fresh hold for the old failing sequence *)
+Example example_all_gone : exists s,
+  pexec false [] (firstn 2 refute_ops) = Val s /\
+  gget (spec_pexec [] (firstn 2 refute_ops)) (fname Net) = [] :: [[(bs "eth0", [0; 100; 0; 0; 0; 0; 0; 0])]].
+Proof. eexists. vm_compute. split; reflexivity. Qed.
